@@ -43,3 +43,11 @@ def _hmmer_results(hits, evalue, score):
 
 REAL["HmmerHitScores"] = _hmmer_hit
 REAL["HmmerResults"] = _hmmer_results
+
+
+def _hmm_result(_hit_id, _query_start, _query_end, _evalue, _bitscore):
+    from antismash.common.hmmscan_refinement import HMMResult
+    return HMMResult(_hit_id, _query_start, _query_end, _evalue, _bitscore)
+
+
+REAL["HIT"] = _hmm_result
